@@ -415,3 +415,9 @@ fn c05_bookkeeping_ignored() {
     kani::cover!(sel == 3);
     kani::cover!(sel == 4 && c.0.user_data > 3);
 }
+
+/// `Completion::process` is private to `cq`; this lets harnesses elsewhere
+/// deliver a completion the way `Completions::poll` does.
+pub(crate) unsafe fn process(c: &Completion) {
+    unsafe { c.process() }
+}
